@@ -98,25 +98,27 @@ def run(P, R):
         fm = factmap(u)
         sets = [c for c in own_nodes(u.node) if isinstance(c, ast.Call) and call_text(c) == 'setattr']
         R.require(len(sets) == 1, 'Parser.%s: expected one setattr' % nm)
-        hs = fm.handlers.get(id(sets[0]), ())
-        caught = set(hs[-1][0]) if hs else set()
-        ok = caught == excs
+        # what is stored, in closed form (no local names), and the handlers around the expression that converts: the
+        # store itself may sit in the try body after the conversion or in the `else:` clause of that try
+        stored = closed_text(u, sets[0].args[2])
+        want = closed_text(u, ast.parse(conv or 'klass[value]', mode='eval').body)
+        cnodes = [x for x in own_nodes(u.node) if isinstance(x, (ast.Call, ast.Subscript)) and isinstance(x.ctx if
+                  isinstance(x, ast.Subscript) else ast.Load(), ast.Load) and closed_text(u, x) == want]
+        caught = set()
+        for x in cnodes:
+            hs = fm.handlers.get(id(x), ()) or fm.handlers.get(id(fm.stmt_of.get(id(x), x)), ())
+            caught |= set(hs[-1][0]) if hs else set()
+        ok = bool(cnodes) and caught == excs
         R.check(r1, ok, '%s converts inside try/except %s' % (nm, sorted(excs)), 'domain|%s|except' % nm, u.loc(),
-                'Parser.%s stores the value inside try/except %s (expected %s): a malformed value escapes instead of '
+                'Parser.%s converts the value inside try/except %s (expected %s): a malformed value escapes instead of '
                 'leaving the default' % (nm, sorted(caught), sorted(excs)))
         facts = {tuple(f) for f in fm.at(sets[0])}
         if guard:
             R.check(r1, (guard, True) in facts, '%s stores only under %s' % (nm, guard), 'domain|%s|guard' % nm,
                     u.loc(), 'Parser.%s stores the value under %s instead of `%s`: an out-of-domain value replaces the '
                     'default' % (nm, sorted(f for f in facts if f[0] != 'str_value'), guard))
-        if conv:
-            vd = [a for a in own_nodes(u.node) if isinstance(a, ast.Assign) and ast.unparse(a.targets[0]) == 'value']
-            R.check(r1, len(vd) == 1 and ast.unparse(vd[0].value) == conv and ast.unparse(sets[0].args[2]) == 'value',
-                    '%s stores %s' % (nm, conv), 'domain|%s|conversion' % nm, u.loc(),
-                    'Parser.%s stores %s' % (nm, ast.unparse(sets[0].args[2])))
-        else:
-            R.check(r1, ast.unparse(sets[0].args[2]) in ('klass[value]', 'value'), '%s stores the converted value' % nm,
-                    'domain|%s|conversion' % nm, u.loc(), 'Parser.%s stores %s' % (nm, ast.unparse(sets[0].args[2])))
+        R.check(r1, stored == want, '%s stores %s' % (nm, want), 'domain|%s|conversion' % nm, u.loc(),
+                'Parser.%s stores %s' % (nm, stored))
     # enum class vs attribute annotation
     AR, PRu = P.cls('ApplicationRules'), P.cls('ProcessRules')
     n_enum = 0
